@@ -16,6 +16,7 @@ import (
 	"github.com/bufbuild/buf/private/bufpkg/bufconfig"
 	"github.com/bufbuild/buf/private/bufpkg/bufplugin"
 	"github.com/bufbuild/buf/private/pkg/wasm"
+	"github.com/bufbuild/bufverif/internal/evid"
 	"pgregory.net/rapid"
 )
 
@@ -609,6 +610,7 @@ func migGenProto(t *rapid.T, ws *migWS, modIdx int, root string, siblings []*mig
 			r := migRPC{Name: rn, Comment: migChance(t, "crpc", 30)}
 			sh := migRange(t, "rpcshape", 0, 5)
 			if !emptyOK && (sh == 1 || sh == 2) {
+				evid.R().Excluded("mig-shared-rpc-type-across-roots-of-one-module")
 				sh = 3
 			}
 			switch sh {
@@ -731,18 +733,21 @@ func migGenCheckCfg(t *rapid.T, m *migMod, kind string, mixed bool) migCheckCfg 
 		default:
 			from = filter(tb.ids, common)
 		}
-		if !migChance(t, label+"_risky", 10) {
+		id := migPick(t, label+"_id", from)
+		if risky(id, inUse) && !migChance(t, label+"_risky", 12) {
+			// steer away from an id of a known-defect shape (kept in about one case of eight)
 			var safe []string
-			for _, id := range from {
-				if !risky(id, inUse) {
-					safe = append(safe, id)
+			for _, x := range from {
+				if !risky(x, inUse) {
+					safe = append(safe, x)
 				}
 			}
 			if len(safe) > 0 {
-				from = safe
+				evid.R().Excluded("mig-id-of-known-defect-shape-redrawn")
+				id = migPick(t, label+"_safeid", safe)
 			}
 		}
-		return migPick(t, label+"_id", from)
+		return id
 	}
 	pickIDs := func(label string, max int, common bool, inUse bool) []string {
 		n := migRange(t, label+"_n", 1, max)
@@ -763,6 +768,10 @@ func migGenCheckCfg(t *rapid.T, m *migMod, kind string, mixed bool) migCheckCfg 
 		usePct = 85
 	}
 	if migChance(t, kind+"_use", usePct) {
+		if mixed {
+			// not valid before migration already: buf resolves it against the other module's rule table
+			evid.R().Excluded("mig-use-id-unknown-to-other-version-of-mixed-workspace")
+		}
 		c.Use = pickIDs(kind+"_useid", 3, mixed, true)
 	}
 	if migChance(t, kind+"_except", 45) {
